@@ -119,12 +119,15 @@ impl Writer {
 
 impl Write for Writer {
     fn write(&mut self, buf: &[u8]) -> std::io::Result<usize> {
-        self.builder.input(buf);
-        if self.mmap.is_some() {
-            write_mapped(&mut self.mmap, &mut self.mapped, &mut self.tmpfile, buf)
+        // Only hash what was really accepted: after a short write the caller
+        // hands the rest of the buffer in again.
+        let written = if self.mmap.is_some() {
+            write_mapped(&mut self.mmap, &mut self.mapped, &mut self.tmpfile, buf)?
         } else {
-            self.tmpfile.write(buf)
-        }
+            self.tmpfile.write(buf)?
+        };
+        self.builder.input(&buf[..written]);
+        Ok(written)
     }
 
     fn flush(&mut self) -> std::io::Result<()> {
@@ -323,21 +326,23 @@ impl AsyncWrite for AsyncWriter {
 
                         // Start the operation asynchronously.
                         *state = State::Busy(crate::async_lib::spawn_blocking(|| {
-                            inner.builder.input(&inner.buf);
-                            if inner.mmap.is_some() {
-                                let res = write_mapped(
+                            let res = if inner.mmap.is_some() {
+                                write_mapped(
                                     &mut inner.mmap,
                                     &mut inner.mapped,
                                     &mut inner.tmpfile,
                                     &inner.buf,
-                                );
-                                inner.last_op = Some(Operation::Write(res));
-                                State::Idle(Some(inner))
+                                )
                             } else {
-                                let res = inner.tmpfile.write(&inner.buf);
-                                inner.last_op = Some(Operation::Write(res));
-                                State::Idle(Some(inner))
+                                inner.tmpfile.write(&inner.buf)
+                            };
+                            // Only hash what was really accepted: after a
+                            // short write the caller hands the rest in again.
+                            if let Ok(written) = res {
+                                inner.builder.input(&inner.buf[..written]);
                             }
+                            inner.last_op = Some(Operation::Write(res));
+                            State::Idle(Some(inner))
                         }));
                     }
                 }
